@@ -188,6 +188,10 @@ class GlobalContext:
             if path.endswith("/__init__"):
                 path = os.path.dirname(path)
             ctx_name = self.name
+            if ctx_name.replace(".", "/") != path:
+                # the importer is a plain module inside the package directory, not the package itself:
+                # relative names start at its package
+                ctx_name = ctx_name[0 : ctx_name.rfind(".")]
             for _ in range(import_level - 1):
                 path = os.path.dirname(path)
                 idx = ctx_name.rfind(".")
